@@ -164,8 +164,7 @@ def run(ctx):
         ctx.count(got or "translated")
         if got != exp:
             explained = ["KF5"] if expected(d, cfg, kf5=True) == got and \
-                es.containers_without_direct_leaf(common.impl().utils.normalize_nested_fields_specs(
-                    cfg.get("nested_fields"))) else []
+                es.containers_without_direct_leaf(es.norm_nested_spec(cfg.get("nested_fields"))) else []
             ctx.fail("the builder %s but the property demands %s" % (
                 "raises " + got if got else "translates the query", exp or "a translation"),
                 {"cfg": cfg, "tree": d, "got": r.get("err"), "explained_by": explained})
